@@ -4,12 +4,14 @@ property's own check (plus the extra checks given), undo, and store patch/demo/m
 import json, os, re, shutil, subprocess, sys
 pid = sys.argv[1]
 checks = [pid] + sys.argv[2:]
-src = f'/tmp/mut/{pid}/MUTATION'
 dst = f'/verif/seeded/{pid}'
+src = f'/tmp/mut/{pid}/MUTATION'
+if not os.path.isdir(src):
+    src = dst  # re-evaluate the stored patches
 os.makedirs(dst, exist_ok=True)
 meta_path = f'{dst}/meta.json'
 meta = {'property': pid, 'source': 'fresh sub-agent given only the property text and a scratch worktree', 'mutations': []}
-if os.path.exists(f'{src}/README.md'):
+if src != dst and os.path.exists(f'{src}/README.md'):
     shutil.copy(f'{src}/README.md', f'{dst}/README.md')
 for f in sorted(os.listdir(src)):
     m = re.match(r'patch(\d+)\.diff$', f)
@@ -18,8 +20,9 @@ for f in sorted(os.listdir(src)):
     subprocess.run(['git', '-C', '/repo', 'checkout', '-q', '--', '.'])
     r = subprocess.run(['git', '-C', '/repo', 'apply', f'{src}/{f}'], capture_output=True, text=True)
     entry = {'n': int(n), 'patch': f'patch{n}.diff', 'demo': f'demo{n}.rs', 'results': {}}
-    shutil.copy(f'{src}/{f}', f'{dst}/patch{n}.diff')
-    if os.path.exists(f'{src}/demo{n}.rs'): shutil.copy(f'{src}/demo{n}.rs', f'{dst}/demo{n}.rs')
+    if src != dst:
+        shutil.copy(f'{src}/{f}', f'{dst}/patch{n}.diff')
+        if os.path.exists(f'{src}/demo{n}.rs'): shutil.copy(f'{src}/demo{n}.rs', f'{dst}/demo{n}.rs')
     files = re.findall(r'^\+\+\+ b/(\S+)', open(f'{src}/{f}').read(), re.M)
     entry['files'] = files
     if r.returncode != 0:
